@@ -231,6 +231,7 @@ def wtTerms (P : Params) (vis : Sym × Nat → Option (Sym × Nat)) :
       ((leafSyms P (forbAt P parent) depth ty).map (fun s => Tree.node s [])) ++
       (if depth + 1 < P.maxDepth then
         (appHeads P (forbAt P parent) depth ty).flatMap (fun h =>
+          if h.2.isEmpty && (leafSyms P (forbAt P parent) depth ty).contains h.1 then [] else
           (product ((enumFrom' h.2).map (fun it => wtTerms P vis b (depth + 1) (vis (h.1, it.1)) it.2))).map
             (fun kids => Tree.node h.1 kids))
        else [])
